@@ -218,7 +218,7 @@ func finalProfile(r *rand.Rand, idx int, tier string) *eng.Case {
 
 // attemptsProfile: retry budgets and outcome scripts over all five outcomes; small timeouts through direct create.
 func attemptsProfile(r *rand.Rand, idx int, tier string) *eng.Case {
-	outs := []string{plug.Transient, plug.Transient, plug.Permanent, plug.OK, plug.OK, plug.WrongType, plug.Overrun}
+	outs := []string{plug.Transient, plug.Transient, plug.Permanent, plug.OK, plug.OK, plug.WrongType, plug.WrongTypeErr, plug.Overrun}
 	mk := func() spec.Action {
 		a := spec.Action{Retries: r.Intn(5), Pointer: r.Intn(3) == 0, TimeoutMS: 2000}
 		n := 1 + r.Intn(a.Retries+2)
@@ -630,7 +630,7 @@ func init() {
 	})
 	register(&Prop{
 		ID: "C05", Level: "exploration", Batch: 16, PerCaseTimeout: 90 * time.Second,
-		Rule:  "case i = PRNG(seed,i) plan whose every action has Retries 0-4 and a script of up to Retries+2 outcomes over {ok, transient, permanent, wrongtype, overrun}; stored through vault.Create so that overrun actions can have a 60 ms timeout; non-trivial = the case contained a retried, overrun or wrong-type invocation; distinct by script hash",
+		Rule:  "case i = PRNG(seed,i) plan whose every action has Retries 0-4 and a script of up to Retries+2 outcomes over {ok, transient, permanent, wrongtype, wrongtype together with a retryable error, overrun}; stored through vault.Create so that overrun actions can have a 60 ms timeout; non-trivial = the case contained a retried, overrun or wrong-type invocation; distinct by script hash",
 		Cases: nCases(80, 2500),
 		Run: engineRun("C05", attemptsProfile, func(c *eng.Case, run *eng.Run, pr *eng.PlanRun, t *oracle.Trace, res *CaseResult) {
 			res.Viols = append(res.Viols, oracle.C05(pr.Spec, t, pr.P0)...)
